@@ -207,6 +207,26 @@ def r8(R, repo):
     R.unsure(key, f, 're-injection of the immutable broadcast collections not recognised')
 
 
+@rule('C06.R9', 'K4', 2, 'class transforms: options given per method (methods={...}) are not overridden by the options of the transform itself')
+def r9(R, repo):
+  tr = repo.mod(TR)
+  for q in ('module_class_lift_transform', 'module_class_lift_transform_cached'):
+    f = tr.func(q)
+    key = key_of(f, 'per-method options win')
+    comps = [n for n in astu.body_walk(f.node) if isinstance(n, ast.DictComp) and isinstance(n.generators[0].iter, ast.Call) and astu.src(n.generators[0].iter) == 'methods.items()']
+    if len(comps) != 1 or not isinstance(comps[0].value, ast.Tuple) or len(comps[0].value.elts) != 2:
+      R.unsure(key, f, 'the {method: (args, kwargs)} table built from methods.items() was not recognised')
+      continue
+    v = astu.src(comps[0].generators[0].target.elts[1]) if isinstance(comps[0].generators[0].target, ast.Tuple) else None
+    kw = comps[0].value.elts[1]
+    if astu.src(kw) == v:
+      R.ok(key, (f, comps[0]))
+    elif isinstance(kw, ast.Dict) and all(k is None for k in kw.keys) and v in [astu.src(x) for x in kw.values]:
+      R.check(astu.src(kw.values[-1]) == v, key, (f, kw), evidence=True, msg_fail='`%s` unpacks the per-method options before the transform-wide ones: the wrapper\'s defaults (in_axes=0, out_axes=0, ...) override what was asked for a method, so e.g. nn.vmap(Cls, methods={\'f\': dict(in_axes=1)}) maps axis 0' % astu.short(kw))
+    else:
+      R.unsure(key, (f, kw), 'per-method options expression `%s` not recognised' % astu.short(kw))
+
+
 @rule('C06.R5', 'K6', 7, 'options of nn.scan / nn.vmap / nn.remat_scan reach lift.*, axes_scan.scan, lax.scan and jax.vmap unchanged')
 def r5(R, repo):
   _c05.check_lift_plumbing(R, repo, 'scan', 'lift.scan', ['variable_axes', 'variable_broadcast', 'variable_carry', 'split_rngs', 'in_axes', 'out_axes', 'length', 'reverse', 'unroll', '_split_transpose', 'data_transform', 'metadata_params', 'check_constancy_invariants'])
